@@ -323,17 +323,32 @@ func c02Ring(c *Ctx) {
 	// install side
 	if b := c.fn(rule, "control", "buildRoutingKernspace"); b != nil {
 		n, ok := 0, true
-		ast.Inspect(b.Body, func(m ast.Node) bool {
-			if kv, isKV := m.(*ast.KeyValueExpr); isKV && core.ExprStr(kv.Key) == "lpmIndex" {
-				n++
-				s := reSpace.ReplaceAllString(core.ExprStr(kv.Value), "")
-				if !regexp.MustCompile(`^\(allocStartIdx\+uint32\(\w+\)\)%uint32\(consts\.MaxMatchSetLen\)$`).MatchString(s) {
-					ok = false
-				}
+		// every lpmMapResult literal of the package (the construction may live in a helper of buildRoutingKernspace)
+		for _, u := range c.P.FuncsIn("control") {
+			if strings.HasSuffix(u.File(), "_test.go") {
+				continue
 			}
-			return true
-		})
-		c.R.Checkf(rule, "install-slot-expression", c.pos(b.Pos()), ok && n >= 2, "trie i is installed at slot (allocStartIdx + i) %% MaxMatchSetLen at all %d construction sites", n)
+			ast.Inspect(u.Body, func(m ast.Node) bool {
+				cl, isCL := m.(*ast.CompositeLit)
+				if !isCL {
+					return true
+				}
+				if t := u.Info().TypeOf(cl); t == nil || !strings.HasSuffix(t.String(), "control.lpmMapResult") {
+					return true
+				}
+				for _, el := range cl.Elts {
+					if kv, isKV := el.(*ast.KeyValueExpr); isKV && core.ExprStr(kv.Key) == "lpmIndex" {
+						n++
+						s := reSpace.ReplaceAllString(core.ExprStr(kv.Value), "")
+						if !regexp.MustCompile(`^\(\w+\+uint32\(\w+\)\)%uint32\(consts\.MaxMatchSetLen\)$`).MatchString(s) {
+							ok = false
+						}
+					}
+				}
+				return true
+			})
+		}
+		c.R.Checkf(rule, "install-slot-expression", c.pos(b.Pos()), ok && n >= 1, "trie i is installed at slot (allocStartIdx + i) %% MaxMatchSetLen at all %d construction sites", n)
 		// rules written to the kernel are the rewritten ones
 		full := reSpace.ReplaceAllString(core.FullStr(b.Body), " ")
 		c.R.Checkf(rule, "kernel-gets-rewritten-rules", c.pos(b.Pos()), strings.Contains(full, "rewriteKernRulesWithRingLpmIndex(rules, allocStartIdx,"), "buildRoutingKernspace sends the rewritten copy of the rules to the kernel, with the same start index it installs the tries at")
